@@ -3,7 +3,7 @@
    statement hole (YHole).  `plug` takes a filler for either kind of hole; a context has exactly one
    hole, so only the filler of the matching kind is used.  `at_e/at_s/at_b P C ctx` states P for the
    TypeCtx the checker has when it reaches the hole, having started at C with `ctx`
-   (enter_loop at a loop body, enter_pure at the body of a `pu` function).  Definitions only. *)
+   (enter_loop at a loop body, enter_fn at the body of a function).  Definitions only. *)
 From Coq Require Import String List NArith ZArith Bool.
 From Sylt Require Import Syntax.Resolved Types.TyGraph Types.Tc.
 Import ListNotations.
@@ -97,7 +97,7 @@ Section At.
     | XBinL _ c _ _ | XBinR _ _ c _ | XUni _ c _ | XIfC _ c _ _ _ _ | XCaseM c _ _ _
     | XBlob _ _ _ c _ _ _ | XColl _ _ c _ _ => at_e c ctx
     | XIfB _ _ _ c _ _ _ _ | XCaseB _ _ _ _ _ _ c _ _ _ _ _ | XCaseF _ _ _ c _ _ => at_s c ctx
-    | XFun _ _ _ _ c _ pure _ => at_s c (if pure then enter_pure ctx else ctx)
+    | XFun _ _ _ _ c _ pure _ => at_s c (enter_fn pure ctx)
     end
   with at_s (C : sctx) (ctx : tctx) : Prop :=
     match C with
